@@ -364,6 +364,30 @@ def transform_fill_grid(chk):
         check_pictures(chk, font, cfg, srcs, glyphs, 0.1, f"grid [{label}] [{fmt}]", replay, deltas=CC.layer_deltas(glyphs, cfg, 0.1))
 
 
+def nested_groups(chk):
+    """Nested <g opacity> groups ending in every way relative to their parents, as OT-SVG documents."""
+    for k, name in enumerate(sorted(S.NESTED_GROUP_SHAPES)):
+        for rep in range(2):
+            r = common.rng("C02", "nested", name, rep)
+            glyphs = S.nested_group_scenario(r, name)
+            fmt = ["picosvg", "picosvgz", "untouchedsvg"][(k + rep) % 3]
+            tol = 0.1 if rep == 0 else -1.0
+            cfgkw = dict(color_format=fmt, keep_glyph_names=True, reuse_tolerance=tol, clip_to_viewbox=False)
+            cfg = build.base_config(**cfgkw)
+            srcs = CC.sources_from(glyphs)
+            replay = {"kind": "nested-groups", "shape": name, "config": {a: str(b) for a, b in cfgkw.items()}, "svgs": [x.svg_text for x in srcs]}
+            chk.case(key=("nested", name, rep), nontrivial=True)
+            chk.traces_validated += 1
+            try:
+                _, font = build.build(cfg, srcs, already_pico=True)
+            except Exception as e:
+                chk.violation(f"valid source with nested opacity groups fails to build ({fmt}): {type(e).__name__}: {str(e)[:200]}", replay)
+                continue
+            structural_checks(chk, font, f"nested groups {name}", replay)
+            check_pictures(chk, font, cfg, srcs, glyphs, max(tol, 0), f"nested groups [{name}] [{fmt}]", replay,
+                           deltas=CC.layer_deltas(glyphs, cfg, max(tol, 0)))
+
+
 def reuse_fill_grid(chk):
     """reuse transform kinds x fill kinds as picosvg documents (<use> with x / y / transform, gradients counter-transformed
     for the copy)."""
@@ -451,6 +475,7 @@ def run(chk):
         replay_model(chk, res.records, 100 if quick else 3000)
         random_formats(chk, 50 if quick else 1500)
         transform_fill_grid(chk)
+        nested_groups(chk)
         reuse_fill_grid(chk)
         replay_gradient_model(chk)
         shared_gradient_documents(chk, 16 if quick else 400)
